@@ -2,14 +2,15 @@
 # Regenerate coq/Gen/*.v from /repo's current source with the Go translator (DESIGN 5.2).
 set -e
 export GOFLAGS=-mod=mod GOPROXY=off GOSUMDB=off GOTOOLCHAIN=local
-mkdir -p /verif/.build
-T=/verif/.build/translator
-if [ ! -x $T ] || [ -n "$(find /verif/translator -name '*.go' -newer $T)" ]; then
-  (cd /verif/translator && go build -o $T .) 1>&2
+V=${VERIF_ROOT:-/verif}
+mkdir -p $V/.build
+T=$V/.build/translator
+if [ ! -x $T ] || [ -n "$(find $V/translator -name '*.go' -newer $T)" ]; then
+  (cd $V/translator && go build -o $T .) 1>&2
 fi
-mkdir -p /verif/.build/gen
-$T -repo /repo -out /verif/.build/gen 1>&2
+mkdir -p $V/.build/gen
+$T -repo /repo -out $V/.build/gen 1>&2
 # only touch the .v files when their content changed (keeps make incremental)
 for f in handlers perms nondet genesis; do
-  if ! cmp -s /verif/.build/gen/$f.v /verif/coq/Gen/$f.v; then cp /verif/.build/gen/$f.v /verif/coq/Gen/$f.v; fi
+  if ! cmp -s $V/.build/gen/$f.v $V/coq/Gen/$f.v; then cp $V/.build/gen/$f.v $V/coq/Gen/$f.v; fi
 done
